@@ -127,6 +127,8 @@ def run(ctx: Ctx) -> None:
         # tie of the modelled block sub-parsers (leaf rules, block quotes, lists)
         from . import miniblock
         miniblock.tie_all(ctx, drv, quick)
+        from . import pipeline
+        pipeline.tie_full(ctx, drv, 2000 if quick else 50000, ref=True)     # MarkdownIt.parse end to end, reference rule included
     finally:
         drv.close()
     ctx.cov["rule_calls_monitored"] = mon.calls
